@@ -77,6 +77,10 @@ type File struct {
 	Infos   []fs.FileInfo
 	Listed  int
 	Written []byte // bytes written through Write, in order
+	// Disk is the content model of a handle opened for writing: Write stores at the handle's own
+	// write offset WPos (gaps read as zero), Truncate cuts or zero-extends without moving WPos.
+	Disk []byte
+	WPos int
 }
 
 var _ afero.File = (*File)(nil)
@@ -174,6 +178,7 @@ func (f *File) Seek(offset int64, whence int) (int64, error) {
 		return 0, os.ErrInvalid
 	}
 	f.Pos = np
+	f.WPos = int(np)
 	return np, nil
 }
 
@@ -183,6 +188,15 @@ func (f *File) Write(p []byte) (int, error) {
 		return 0, ErrIO
 	}
 	f.Written = append(f.Written, p...)
+	for len(f.Disk) < f.WPos {
+		f.Disk = append(f.Disk, 0)
+	}
+	if f.WPos+len(p) >= len(f.Disk) {
+		f.Disk = append(f.Disk[:f.WPos], p...)
+	} else {
+		copy(f.Disk[f.WPos:], p)
+	}
+	f.WPos += len(p)
 	return len(p), nil
 }
 
@@ -195,6 +209,13 @@ func (f *File) WriteString(s string) (int, error) { return f.Write([]byte(s)) }
 
 func (f *File) Truncate(size int64) error {
 	f.L.add("truncate", f.Path, 0)
+	if size >= 0 && size <= int64(len(f.Disk)) {
+		f.Disk = f.Disk[:size]
+	} else if size > 0 && size < 1<<16 {
+		for int64(len(f.Disk)) < size {
+			f.Disk = append(f.Disk, 0)
+		}
+	}
 	return nil
 }
 
@@ -298,6 +319,18 @@ type Fs struct {
 	Guard func(op, path string)
 	// Missing decides what happens for paths that are not listed: nil = not exist
 	Missing func(op, path string) (*File, error)
+	// Handles lists every handle handed out, in order of opening.
+	Handles []*File
+}
+
+// LastHandle returns the most recently opened handle of a path (nil if none).
+func (s *Fs) LastHandle(path string) *File {
+	for i := len(s.Handles) - 1; i >= 0; i-- {
+		if trimSlash(s.Handles[i].Path) == trimSlash(path) {
+			return s.Handles[i]
+		}
+	}
+	return nil
 }
 
 var _ afero.Fs = (*Fs)(nil)
@@ -357,9 +390,11 @@ func (s *Fs) open(op, name string, flag int) (afero.File, error) {
 	h.Pos = 0
 	h.Listed = 0
 	h.Closes = 0
+	h.Written, h.Disk, h.WPos = nil, nil, 0
 	if s.L != nil {
 		s.L.Opened++
 	}
+	s.Handles = append(s.Handles, &h)
 	return &h, nil
 }
 
